@@ -1,23 +1,24 @@
 #!/bin/bash
-# confirm a seeded change: suite passes with the patch, demo fails with it and passes without it.
-# usage: sa/confirm_seed.sh <dir with patch.diff and demo.rs>   (uses a scratch worktree, removed afterwards unless KEEP=1)
+# confirm a seeded change: demo passes on the unchanged code, fails with the patch; existing suite passes with the patch.
+# usage: sa/confirm_seed.sh <dir with patch.diff and demo.rs> [slot]   (scratch worktree + per-slot target dir under /tmp, worktree removed afterwards)
 set -u
 D=$(readlink -f "$1")
-WT=/tmp/wt-confirm-$$
+SLOT=${2:-0}
+WT=/tmp/wt-confirm-$SLOT-$$
 export CARGO_NET_OFFLINE=true
 git -C /repo worktree add -q --detach $WT HEAD || exit 9
 cleanup() { git -C /repo worktree remove --force $WT; }
 trap cleanup EXIT
-[ -d /tmp/confirm-target ] || cp -r /repo/target /tmp/confirm-target
-export CARGO_TARGET_DIR=/tmp/confirm-target
+T=/tmp/confirm-target-$SLOT
+[ -d $T ] || cp -r /repo/target $T
+export CARGO_TARGET_DIR=$T
 cd $WT
 mkdir -p tests && cp "$D/demo.rs" tests/demo.rs
 echo "== demo on unchanged code"
-cargo test --offline --test demo 2>&1 | grep -E "^test result|error(\[|:)" | head -3
-BASE=$?
+cargo test --offline --test demo 2>&1 | grep -E "^test result|^error" | head -3
 git apply "$D/patch.diff" || { echo "PATCH DOES NOT APPLY"; exit 8; }
 echo "== demo with the change"
-cargo test --offline --test demo 2>&1 | grep -E "^test result|error(\[|:)|panicked" | head -4
+cargo test --offline --test demo 2>&1 | grep -E "^test result|^error" | head -3
 rm tests/demo.rs
 echo "== existing suite with the change"
-cargo test --offline 2>&1 | grep -E "^test result|error(\[|:)" | head -4
+cargo test --offline 2>&1 | grep -E "^test result|^error" | head -4
